@@ -70,6 +70,10 @@ type tline struct {
 
 	// notes: feature tags found while projecting the groupfake history (see tokens)
 	notes []string
+
+	// aoc: the fake's "ocommit" events of the client become `aoc` tokens (the answer of an
+	// OffsetCommit has been produced)
+	aoc bool
 }
 
 func (t *tline) rec(tok string) {
@@ -162,6 +166,10 @@ func (t *tline) tokens() []string {
 			if e.Client == clientU && e.Code == 0 && e.Drop == 0 {
 				out = append(out, fmt.Sprintf("j%x", id(e.Member)))
 				lastJ = e.Member
+			}
+		case "ocommit":
+			if t.aoc && e.Client == clientU {
+				out = append(out, "aoc")
 			}
 		}
 	}
